@@ -35,10 +35,28 @@ class Reach:
             return DISABLE
 
         mon.register_callback(TOOL_ID, mon.events.LINE, on_line)
-        mon.set_events(TOOL_ID, mon.events.LINE)
+        events = mon.events.LINE
+        if os.environ.get("REACH_BRANCH"):
+            # diagnostic (tools/unreached.py): which destinations of each conditional jump were taken
+            branches = self.branches = {}
+
+            def on_branch(code, src, dst):
+                fn = code.co_filename
+                if not fn.startswith(root):
+                    return DISABLE
+                seen = branches.setdefault((fn, code.co_qualname, code.co_firstlineno, src), set())
+                seen.add(dst)
+                return DISABLE if len(seen) >= 2 else None
+
+            mon.register_callback(TOOL_ID, mon.events.BRANCH, on_branch)
+            events |= mon.events.BRANCH
+        mon.set_events(TOOL_ID, events)
 
     def report(self) -> dict:
         out = {}
+        if getattr(self, "branches", None):
+            out["__branches__"] = {"lines": [f"{os.path.basename(k[0])}|{k[1]}|{k[2]}|{k[3]}|{d}"
+                                             for k, v in self.branches.items() for d in v], "total": 0}
         for fn, lines in self.hits.items():
             total = _code_lines(fn)
             out[os.path.basename(fn)] = {"lines": sorted(lines & total), "total": len(total)}
